@@ -5,4 +5,4 @@ From C08 Require Import Gen Model Spec TextSpec TextCheck.
 Extraction Language OCaml.
 Extraction "model.ml" io_witness N.div_eucl handle art_handle init_ust init_aport
   mkPkt mkCfg mkK mkAC mkW pkt_of_wire handle_wire VECTOR_E131_DATA mkDG handle_dgram with_rev2 VECTOR_ROOT_E131 VECTOR_ROOT_E131_REV2 EXPIRY_INTERVAL_US
-  text_out xstep verdict over_cap atext_step list_eqb text_out_unshadowed cstep gcap init_cst node_op init_node cfg_of NData NEnable NDisable NMode NSubnet NNet.
+  text_out xstep verdict over_cap atext_step list_eqb text_out_unshadowed cstep gcap init_cst node_op init_node cfg_of NData NEnable NDisable NMode NSubnet NNet NSendFail inflator_op ilook IPkt IReg IUnreg rebuffer.
